@@ -81,18 +81,16 @@ def pad2d(array, Q=2, value=0, mode='constant', out_shape=None):
                 out_shape = [out_shape]*array.ndim
 
         shape_diff = [o-i for o, i in zip(out_shape, in_shape)]
-        pad_shape = []
-        for d in shape_diff:
-            divby2 = d//2
-            lcl = (d-divby2, divby2)  # 13 => 6; (7,6) correct; 12 => 6; (6,6) correct
-            pad_shape.append(lcl)
+        # the origin sample of an axis of length n is index n//2: the leading pad is the
+        # distance between the input's and the output's origin samples, for every parity
+        offsets = [o//2 - i//2 for o, i in zip(out_shape, in_shape)]
+        pad_shape = [(off, d-off) for off, d in zip(offsets, shape_diff)]
 
         if mode == 'constant':
             # TODO: clean this garbage up, the code here shouldn't be completely
             # non common mode the way it is
 
-            dbytwo = [math.ceil(d/2) for d in shape_diff]
-            slcs = tuple((slice(d, d+s) for d, s in zip(dbytwo, in_shape)))
+            slcs = tuple((slice(d, d+s) for d, s in zip(offsets, in_shape)))
             out = np.zeros(out_shape, dtype=array.dtype)
             if value != 0:
                 out += value
@@ -125,8 +123,8 @@ def crop_center(img, out_shape):
     if isinstance(out_shape, int):
         out_shape = (out_shape, out_shape)
 
-    padding = [i-o for i, o in zip(img.shape, out_shape)]
-    left = [math.ceil(p/2) for p in padding]
+    # index i//2 of the input is the origin and lands on index o//2 of the output
+    left = [i//2 - o//2 for i, o in zip(img.shape, out_shape)]
     slcs = tuple((slice(l, l+o) for l, o in zip(left, out_shape)))  # NOQA -- l ambiguous
     return img[slcs]
 
